@@ -190,7 +190,8 @@ def cli_case(r):
                 lines.append("#program %s. :- %s, %s." % (p, a, b) if a != b else "#program %s. { %s }." % (p, a))
         files.append("\n".join(lines) + "\n")
     if r.random() < 0.4:
-        shows = r.sample(["#show a/0.", "#show c/1.", "#show -a/0.", "#show d/2.", "#show f(a).", "#show g(X) : c(X).", "#show e/1."], r.randint(1, 3))
+        shows = r.sample(["#show a/0.", "#show c/1.", "#show -a/0.", "#show d/2.", "#show f(a).", "#show g(X) : c(X).", "#show e/1.",
+                          "#show t(-1).", "#show lvl(a,-2) : a.", "#show far(7).", "#show t(-1) : not a."], r.randint(1, 3))
         files[-1] += "#program always.\n" + "\n".join(shows) + "\n"
     opts = ["0", "--imin={}".format(r.randint(1, 3)), "--imax={}".format(3)]
     if r.random() < 0.2:
